@@ -210,7 +210,14 @@ class Array(Base):
         return tuple(self._maybe_array(a) for a in args)
 
     def _extract_arrays_from_kwargs(self, kwargs):
-        return {key: self._extract_arrays_from_args(a) for key, a in kwargs.items()}
+        return {
+            key: (
+                self._extract_arrays_from_args(a)
+                if isinstance(a, (tuple, list))
+                else self._maybe_array(a)
+            )
+            for key, a in kwargs.items()
+        }
 
     def _maybe_unit(self, arg):
         if hasattr(arg, "unit"):
